@@ -14,6 +14,7 @@
   inputs plus the differential run (bit/byte mutations, forged signatures) against the independent
   `Prim` implementation.
 -/
+import BtcVerif.Props.GuardPins.P_ecc
 import BtcVerif.Proofs.ECCGroup
 import BtcVerif.Proofs.CurveAbsToy
 
